@@ -263,6 +263,17 @@ class Future(BaseFuture):
         else:
             return str(value)
 
+    @property
+    def value(self) -> Optional[int]:
+        """Get the value of the future.
+        If it's not set yet, `None` is returned."""
+        # An array entry can be updated by later subroutines, so prefer the
+        # current value in the shared memory over a previously cached one.
+        value = self._try_get_value()
+        if value is None:
+            return self._value
+        return value
+
     def _try_get_value(self) -> Optional[int]:
         if not isinstance(self._index, int):
             raise NonConstantIndexError("index is not constant and cannot be resolved")
@@ -474,7 +485,8 @@ class RegFuture(BaseFuture):
             other_operand = self.builder._mem_mgr.get_inactive_register(activate=True)
             other_tmp_register = other_operand
             load_commands += other.get_load_commands(other_tmp_register)
-            store_commands += other._get_store_commands(other_tmp_register)
+            # NOTE `other` is not modified so it is not stored back. (Doing so would
+            # overwrite the result if `other` refers to the same entry as `self`.)
         elif isinstance(other, operand.Register) or isinstance(other, int):
             other_operand = other
         else:
